@@ -74,6 +74,17 @@ def run(ctx):
                 p.pop("clockq", None)
                 p.pop("clock0", None)
                 ps.append(p)
+        # stops raised late: after the initial population / interpolation set, in the middle of trial, local-search or shrink phases
+        for nm in problems.ALL:
+            for k in ([30, 41, 55, 75, 100, 130, 180] if ctx.thorough else [33, 58, 91, 140]):
+                p = problems.gen_problem(rng, A, alg_name=nm, maxeval=400, with_constraints=(rng.random() < 0.3), box="finite" if rng.random() < 0.7 else None)
+                for kk in ("maxtime", "clockq", "clock0", "stopval", "ftol_rel", "xtol_rel", "xtol_abs"):
+                    p.pop(kk, None)
+                p["obj"] = rng.choice([1, 3])
+                p["stopat"] = k
+                p["runs"] = 2
+                p["reseed"] = 1
+                ps.append(p)
         # the stop raised by exactly the evaluation that also exhausts maxeval: FORCED_STOP must win
         for nm in problems.ALL:
             for k in ([2, 3, 4, 5, 6, 8, 11, 16, 23] if ctx.thorough else [2, 3, 5, 8]):
